@@ -69,6 +69,8 @@ type SignedSpec struct {
 	AlterPayload    func(payload map[string]interface{}) // applied AFTER signing, payload re-encoded
 	OmitDelta       bool
 	NullDelta       bool
+	// DeltaInRequest, when set, is placed in the request instead of Delta (the signed hash still covers Delta)
+	DeltaInRequest map[string]interface{}
 }
 
 // SignedPayload builds the signed data model.
@@ -144,6 +146,8 @@ func (s *SignedSpec) Request() map[string]interface{} {
 	if s.Op != "deactivate" && !s.OmitDelta {
 		if s.NullDelta {
 			req["delta"] = nil
+		} else if s.DeltaInRequest != nil {
+			req["delta"] = s.DeltaInRequest
 		} else {
 			req["delta"] = s.Delta
 		}
